@@ -169,7 +169,8 @@ Definition carries (p : pc) : option res :=
 Definition nonget (p : pc) : bool :=
   match p with
   | RStart _ | RLock _ | RAdd | RSurplus _ | RDetach _ | TStart _ | TLock _ | TAdd _ | TDetach _
-  | OResize _ | ORetain _ | OClose | OStatus | ODropPool => true
+  | OResize _ | ORetain _ | OClose | OStatus | ODropPool
+  | OResizeL _ | ORetainS _ | ORetainL _ | OCloseL | OStatusL => true
   | _ => false
   end.
 
